@@ -321,9 +321,12 @@ CHECKS["C06"]["text"] = CHECKS["C06"]["text"].replace(
     "Value level: the tokens of a printed value of every kind read back as the value. Record level: the line printed for a "
     "record (name, optional identifier, formal arguments in order with '-' for the absent ones, bracketed attribute list of "
     "any length) is cut by the specification's lexer into tokens which its expression parser reads as the record — kind, "
-    "identifier URI, formal arguments, every other attribute value in order. Document framing (declarations, bundles) is "
-    "not proved (partial):")
-CHECKS["C06"]["technique"] = ("Coq proofs (escape/unescape inversion; value- and record-level printer -> spec lexer -> spec parser = "
+    "identifier URI, formal arguments, every other attribute value in order. Document level (C06_document, "
+    "ProvnDocProofs.v): the whole text printed for a document without bundles — document/endDocument frame, default and prefix "
+    "declarations, blank line, one line per record — is read by the specification's reader, with the fuel it derives from the "
+    "length of the text (C06_fuel_suffices: that fuel is enough for the lexer on any text), as exactly the document's records in "
+    "order under the table its declarations build. Bundles inside documents are not proved (partial):")
+CHECKS["C06"]["technique"] = ("Coq proofs (escape/unescape inversion; value-, record- and document-level printer -> spec lexer -> spec parser = "
                               "content) + extracted grammar-based reader executed on the implementation's text")
 CHECKS["C10"]["text"] = CHECKS["C10"]["text"].replace(
     "Document level (bundle map) for PROV-JSON and PROV-XML above value level: run, not proved (partial).",
@@ -338,6 +341,36 @@ CHECKS["C02"]["text"] = CHECKS["C02"]["text"].replace(
     "serialize_bundle by comparing, per record, the element lxml holds with the element the model builds; that the "
     "children are in schema order and are read back as the record by the specification reader is proved (C10_xml_record). "
     "nsmap, bundles and the library's reader at record level are not modelled (partial).")
+CHECKS["C02"]["text"] = CHECKS["C02"]["text"].replace(
+    "nsmap, bundles and the library's reader at record level are not modelled (partial).",
+    "The reader's loop body is modelled too (XmlRead.v: deserialize_subtree, _extract_attributes, xml_qname_to_QualifiedName; "
+    "names resolved in the scope of the element that carries them) and tied to the code by reading every written record "
+    "element with the library and with the model. Proved (C02_record_roundtrip): writer model then reader model gives back "
+    "a record of the same class and identifier holding exactly the values the writer was given, a subtype element's pair "
+    "coming back as the asserted type. nsmap generation and bundles are not modelled (partial).")
+CHECKS["C02"]["technique"] = ("Coq proofs at value and record level over models of the writer and of the reader + per-record "
+                              "correspondences (written element, records read, element names, value grid) + strict round-trip oracle")
+
+
+CHECKS["C07"]["text"] = CHECKS["C07"]["text"].replace(
+    "Values are opaque tokens; elements, "
+    "bundles, literal mapping are not modelled.",
+    "(3) value and attribute level (RdfVal.v, RdfValProofs.v, unbounded): the literal mapping both ways — "
+    "encode_rdf_representation, decode_rdf_representation with what rdflib's lexical-to-Python conversion and Literal.__init__ "
+    "do in between — and the predicate an attribute of an element travels under: every string, integer, boolean, valid datetime, "
+    "URI, language-tagged string comes back as itself, a qualified name and the datatype of a foreign literal as names of the same "
+    "URI, under the attribute of the same URI (C07_value_*, C07_attribute_roundtrip, C07_name_*), given that full URIs resolve in "
+    "the reader's manager — proved (C07_uri_resolves) when the URI's scheme is not a declared prefix and a declared namespace starts "
+    "the URI; the first premise is finding C07-F3 (refuted in the model without it). In Rdfq.v values are opaque tokens; the assembly "
+    "of elements and bundles (named graphs) is not modelled; rdflib/TriG are an oracle (the term read is the term written, measured).")
+CHECKS["C07"]["text"] = CHECKS["C07"]["text"].replace(
+    "for every shape document.",
+    "for every shape document; model triple and model read-back vs the implementation's for 350 attribute x value cases, the same "
+    "cases judged by the direct oracle.")
+CHECKS["C07"]["technique"] = ("Coq proofs: by computation over finite domains (predicates; relation shapes and pairs), unbounded at value "
+                              "and attribute level (literal mapping, URI resolution) + structural and value correspondences "
+                              "+ round-trip oracle with shuffled quad orders")
+assert "C07_value_" in CHECKS["C07"]["text"] and "350 attribute" in CHECKS["C07"]["text"]
 
 
 def main():
